@@ -174,7 +174,14 @@ class LinesToken(TokenT):
                     self.statements, self.whitespace, strict=False
                 )
             )
-            return f"{{%{self.wc[0]} liquid{lines} {self.wc[1]}%}}"
+            # A trailing space would become part of a line comment's text.
+            last = self.statements[-1]
+            end = (
+                "\n"
+                if type(last) is CommentToken and "\n" not in lines.rpartition("#")[2]
+                else " "
+            )
+            return f"{{%{self.wc[0]} liquid{lines}{end}{self.wc[1]}%}}"
         return f"{{%{self.wc[0]} liquid {self.wc[1]}%}}"
 
 
@@ -242,6 +249,46 @@ PathT: TypeAlias = list[Union[int, str, "PathToken"]]
 
 RE_PROPERTY = re.compile(r"[\u0080-\uFFFFa-zA-Z_][\u0080-\uFFFFa-zA-Z0-9_-]*")
 
+_RESERVED_WORDS = frozenset(
+    [
+        "true",
+        "false",
+        "and",
+        "or",
+        "in",
+        "not",
+        "contains",
+        "nil",
+        "null",
+        "if",
+        "else",
+        "with",
+        "required",
+        "as",
+        "for",
+        "empty",
+        "blank",
+    ]
+)
+
+
+def _quote_escaped(segment: str) -> str:
+    """Return a double quoted string literal for a still escaped path segment.
+
+    Quoted path segments are stored as they appear in the source text, escape
+    sequences included, so all that is left to do is escape bare double quotes.
+    """
+    buf: list[str] = []
+    it = iter(segment)
+    for ch in it:
+        if ch == "\\":
+            buf.append(ch + next(it, ""))
+        elif ch == '"':
+            buf.append('\\"')
+        else:
+            buf.append(ch)
+    return '"' + "".join(buf) + '"'
+
 
 @dataclass(kw_only=True, slots=True)
 class PathToken(TokenT):
@@ -254,7 +301,15 @@ class PathToken(TokenT):
 
     def __str__(self) -> str:
         it = iter(self.path)
-        buf = [str(next(it))]
+        root = next(it)
+        if isinstance(root, str):
+            if RE_PROPERTY.fullmatch(root) and root not in _RESERVED_WORDS:
+                buf = [root]
+            else:
+                buf = [f"[{_quote_escaped(root)}]"]
+        else:
+            buf = [f"[{root}]"]
+
         for segment in it:
             if isinstance(segment, PathToken):
                 buf.append(f"[{segment}]")
@@ -262,7 +317,7 @@ class PathToken(TokenT):
                 if RE_PROPERTY.fullmatch(segment):
                     buf.append(f".{segment}")
                 else:
-                    buf.append(f"[{segment!r}]")
+                    buf.append(f"[{_quote_escaped(segment)}]")
             else:
                 buf.append(f"[{segment}]")
         return "".join(buf)
